@@ -117,7 +117,7 @@ def r18b(ctx):
     ctx.check(ok, 'R18b', a.path, 'collection key', a.loc(ent[0]) if ent else '-', 'a registered shard is filed under the collection of its footer\'s chunk_hash_hmac_key')
     # the index recorded for a new key is the collection count read in the same iteration as the push that creates it
     ins = [c for c in a.calls('std::collections::hash::map::Entry::or_insert') if ent and a.rooted_at(a.arg(c, 0), ent[0])]
-    pushes = [p for p in a.calls('alloc::vec::Vec::push') if flow.mentions(a.arg(p, 0), lambda z: z[0] == 'field' and z[2] == 'shard_collections')]
+    pushes = [p for p in a.calls('alloc::vec::Vec::push') if a.arg(p, 0)[0] == 'field' and a.arg(p, 0)[2] == 'shard_collections']
     okf = len(ins) == 1 and len(pushes) == 1
     if okf:
         v = a.arg(ins[0], 1)
